@@ -29,6 +29,10 @@ OPEN = [
     ('C17', 'symmetry-centre|[12]dg:ladder:large',
      'centroid_1dg / centroid_2dg on a point-symmetric source scaled by 2**120 and more (thorough tier): same defect as '
      'commutes|[12]dg:ladder:* (step tolerance met by any step of the centre)'),
+    ('C17', 'sym-raises|1dg:ladder:large',
+     'centroid_1dg on a point-symmetric source scaled by 2**120 (thorough tier; 9x8, centre (8,3), masked garbage) raises '
+     "ValueError('`x` is not within the trust region'): same defect as commutes|[12]dg:ladder:* (the fit is run on data of "
+     'huge magnitude; silent with proposed_fixes/C17-gaussian-centroids-depend-on-data-units.diff applied)'),
     ('C13', 'prf-sum|GaussianPRF:theta%90!=0',
      'GaussianPRF with theta not a multiple of 90 deg does not sum to its flux on the pixel grid for small widths '
      '(-1.3 % at fwhm 0.3, theta 30 deg; up to -69 % at fwhm 0.2): the erf product integrates over rotated pixels, which do '
